@@ -162,6 +162,8 @@ impl<Error: Send + 'static> DecodeScheduler<Error> {
 				index: self.transport.position,
 			})
 			.expect("could not push frame to frame producer");
+		#[cfg(kira_verif)]
+		crate::verif::point("dec.pushed");
 		self.transport.increment_position(self.num_frames);
 		if !self.transport.playing {
 			self.shared.reached_end.store(true, Ordering::SeqCst);
